@@ -214,6 +214,20 @@ def run(ctx):
             ctx.ob("R-THREAD", iex, "tol->matrix_rank", tolv == ("n", "tol"), "tol forwarded" if tolv == ("n", "tol") else "tol not forwarded to matrix_rank")
     else:
         ctx.ob("R-ENUM", iex, "rank compared with r*r", None, "final comparison not found", required=False)
+    # shortcuts: the only verdict that does not come from the rank test is `True` for a single Kraus operator
+    Ne0 = Normalizer(m, iex, inline=True)
+    L_ = ("call", "builtins.len", (("n", "kraus_ops"),), ())
+    badc = None
+    for rn, facts, t in rets:
+        if rn is not None and t[0] == "c" and isinstance(t[1], bool):
+            cs = [(Ne0(a), b) for a, b in flw.conds(facts)]
+            single = any(pol and c_ in (("cmp", "==", ("c", 1), L_), ("cmp", "==", L_, ("c", 1))) for c_, pol in cs)
+            if not (t[1] is True and single):
+                badc = (rn, cs[-1][0] if cs else None)
+    ctx.ob("R-PRED", iex, "no verdict bypasses the rank test (except True for a single Kraus operator)", badc is None,
+           "only the r == 1 shortcut" if badc is None else
+           f"`{unparse(badc[0])}` under `{show(badc[1])[:70] if badc[1] else 'no condition'}` decides extremality without the linear-independence test "
+           "(a dimension-counting shortcut is only valid with the INPUT dimension: the products A_i^+ A_j are d_in x d_in)", badc[0] if badc else None)
     for n in walk_no_nested(iex.node):
         if isinstance(n, ast.ListComp) and len(n.generators) == 2 and "@" in repr(Normalizer(m, iex, inline=False)(n.elt)):
             g1, g2 = n.generators
